@@ -37,7 +37,7 @@ LEVEL_NOTE = ("Trusted: simulator, model/prf.py.  Control messages are only "
               "processed while the receiver reads, so every round ends with "
               "reads; NewSessionTicket delivery is part of every TLS 1.3 run "
               "(ticket_count drawn 0-3).")
-BUDGET = {"quick": 60, "thorough": 1200}
+BUDGET = {"quick": 300, "thorough": 1200}
 CHUNK = 4
 PROBES = ["key_update", "key_update_requested", "simultaneous_keyupdate",
           "pha", "heartbeat", "heartbeat_short_padding", "tls13", "legacy",
